@@ -137,6 +137,7 @@ def _evaluate(run: Run, cases: list[dict], tag: str, count: bool) -> dict[int, l
             bad.setdefault(i, []).append(("tree:" + clause, {"row": k, "diff": res[i]["tree"].get("diff"), "impl_exc": res[i]["tree"].get("impl_exc"),
                                                              "nospecempty_equal": bool(res[i]["tree"].get("nospecempty_equal")),
                                                              "specmerged_equal": bool(res[i]["tree"].get("specmerged_equal")),
+                                                             "specmerged_textspan_only": bool(res[i]["tree"].get("specmerged_textspan_only")),
                                                              "nospecempty_textspan_only": bool(res[i]["tree"].get("nospecempty_textspan_only"))}))
     return bad
 
@@ -180,6 +181,8 @@ def check(run: Run) -> None:
             elif cl == "tree:span" and cont and named:
                 ids.add(SPLIT)
             elif cl.startswith("tree:") and d.get("specmerged_equal") and named:   # the cut pieces of a spec's text stay separate nodes
+                ids |= {SPLIT, EMPTY}
+            elif cl.startswith("tree:") and d.get("specmerged_textspan_only") and cont and named:   # the cut inside a spec AND before a continuation
                 ids |= {SPLIT, EMPTY}
             elif cl.startswith("tree:") and d.get("nospecempty_textspan_only") and cont and named:   # both at once
                 ids |= {SPLIT, EMPTY}
